@@ -107,9 +107,18 @@ func (w *dnsWorld) c08AfterOp(op *dnsOp) {
 					if caseCls != "" {
 						cls = caseCls
 					}
+					if e.mixedTTL(w) {
+						// legitimate if the whole answer lived as long as its FIRST record says
+						if lf, _ := w.staleLimit(e.deadlineByFirstRecord()); op.start <= lf+dnsMargin {
+							cls = "first-record-ttl-used"
+						}
+					}
 					s.Failf("c08-expired-served@"+cls, "client c%d asked %v at %v and was served answer a%d from the cache; it was inserted at %v with lifetime %v (deadline %v, optimistic=%v stale window %ds): served %v after the last instant it may be served",
 						op.cli, op.key, op.start, served.id, e.insertedAt, dl-e.insertedAt, dl, w.cfg.optimistic, w.cfg.staleTtl, op.start-limit)
 					return
+				}
+				if e.mixedTTL(w) && op.start > dl+dnsMargin && op.start < e.deadlineByFirstRecord() {
+					s.Probe("dns.c08-hit-between-shortest-and-first-record-ttl")
 				}
 				if op.end < dl-dnsMargin {
 					s.Probe("dns.fresh-cache-hit")
@@ -117,7 +126,15 @@ func (w *dnsWorld) c08AfterOp(op *dnsOp) {
 					for _, rr := range m.Answer {
 						if ttl := time.Duration(rr.Header().Ttl); ttl > remaining+15+1 {
 							cls := ""
+							if e.mixedTTL(w) {
+								if rf := (e.deadlineByFirstRecord() - op.start + time.Second - 1) / time.Second; ttl <= rf+15+1 {
+									cls = "@first-record-ttl-used"
+								}
+							}
 							for _, o := range w.ops {
+								if cls != "" {
+									break
+								}
 								if o != op && o.key == op.key && o.task != "" && o.startStep <= w.s.Step && (!o.done || o.endStep >= op.startStep) {
 									cls = "@concurrent-lookups"
 								}
